@@ -161,6 +161,11 @@ fn run_history(ctx: &mut Ctx, ty: &Ty, qi: usize, steps: &[Step], observe_every:
 
 pub fn suite_c04(ctx: &mut Ctx) {
     crate::la::suite_dot(ctx);
+    // metamorphic screening (selection only)
+    for ty in FIXED {
+        let l2 = ctx.q(if ty.n == 8 { 20 } else { 23 }, if ty.n == 8 { 24 } else { 28 }) as u32;
+        screen_quire(ctx, ty, l2);
+    }
     for ty in FIXED {
         let lat = gen::lattice(ty.n, ty.es, &mut ctx.rng, 2);
         let nh = ctx.q(2500, 60_000);
@@ -476,4 +481,157 @@ pub fn spellings(ctx: &mut Ctx) {
         }
     }
     let _ = peek;
+}
+
+// ---------------------------------------------------------------------------------------------------------------
+// Metamorphic screening of the quire (selection only): for 2^k random small histories the implementation is compared
+// with ITSELF along routes that must agree for an exact accumulator --
+//   (A) q + ab - ab = q               (bit image)
+//   (B) (q + ab) + cd = (q + cd) + ab
+//   (C) q + (a, b) = q + (b, a);  q - (a, b) = q + (-a, b)
+//   (D) neg(neg(q)) = q;  neg(q + ab) = neg(q) - ab
+//   (E) is_zero agrees with the image being all zero; to_posit(from_posit(a)) = a
+// A history on which any route disagrees (or the library panics) is logged step by step and judged by the
+// specification; agreement proves nothing and is reported only as `screened`.
+// ---------------------------------------------------------------------------------------------------------------
+fn meta_history(ty: &Ty, seed: u64, i: u64) -> (Vec<(u64, u64)>, (u64, u64), (u64, u64)) {
+    use crate::screen::Sm;
+    let mut rng = Sm(seed ^ i.wrapping_mul(0xD6E8_FEB8_6659_FD93));
+    let (n, es) = (ty.n, ty.es);
+    let maxs = ((n - 2) << es) as i32;
+    let mut pick = |rng: &mut Sm| -> u64 {
+        // every regime equally likely; dense, sparse and all-ones fractions; now and then minpos / maxpos themselves
+        let s = rng.gen_range(-maxs..=maxs);
+        let fr = match rng.gen_range(0..5) { 0 => 0, 1 => u64::MAX, 2 => 1u64 << rng.gen_range(0..64), _ => rng.gen::<u64>() };
+        let p = match rng.gen_range(0..12) { 0 => 1, 1 => gen::mask(n - 1), _ => gen::from_scale(n, es, s, fr) };
+        if rng.gen::<bool>() { gen::neg(n, p) } else { p }
+    };
+    let k = rng.gen_range(0..4);
+    let base: Vec<(u64, u64)> = (0..k).map(|_| (pick(&mut rng), pick(&mut rng))).collect();
+    let ab = (pick(&mut rng), pick(&mut rng));
+    let cd = if rng.gen_range(0..4) == 0 { ab } else { (pick(&mut rng), pick(&mut rng)) };
+    (base, ab, cd)
+}
+
+fn meta_differs(ty: &Ty, base: &[(u64, u64)], ab: (u64, u64), cd: (u64, u64)) -> bool {
+    let n = ty.n;
+    let mk = || {
+        let mut q = QAny::new(ty.name);
+        for &(a, b) in base {
+            q.exec("q_add", "pp", &[a, b], &[], &[]);
+        }
+        q
+    };
+    let img = |q: &QAny| q.observe();
+    let q0 = mk();
+    let (b0, z0, n0) = img(&q0);
+    if n0 {
+        return false;
+    }
+    // (A)
+    let mut q = mk();
+    q.exec("q_add", "pp", &[ab.0, ab.1], &[], &[]);
+    let after_ab = img(&q);
+    q.exec("q_sub", "pp", &[ab.0, ab.1], &[], &[]);
+    if !after_ab.2 && img(&q).0 != b0 {
+        return true;
+    }
+    // (B)
+    let mut q1 = mk();
+    q1.exec("q_add", "pp", &[ab.0, ab.1], &[], &[]);
+    q1.exec("q_add", "pp", &[cd.0, cd.1], &[], &[]);
+    let mut q2 = mk();
+    q2.exec("q_add", "pp", &[cd.0, cd.1], &[], &[]);
+    q2.exec("q_add", "pp", &[ab.0, ab.1], &[], &[]);
+    let (i1, i2) = (img(&q1), img(&q2));
+    if !i1.2 && !i2.2 && i1.0 != i2.0 {
+        return true;
+    }
+    // (C)
+    let mut q3 = mk();
+    q3.exec("q_add", "pp", &[ab.1, ab.0], &[], &[]);
+    if img(&q3).0 != after_ab.0 && !after_ab.2 {
+        return true;
+    }
+    let mut q4 = mk();
+    q4.exec("q_sub", "pp", &[ab.0, ab.1], &[], &[]);
+    let mut q5 = mk();
+    q5.exec("q_add", "pp", &[gen::neg(n, ab.0), ab.1], &[], &[]);
+    let (i4, i5) = (img(&q4), img(&q5));
+    if !i4.2 && !i5.2 && i4.0 != i5.0 {
+        return true;
+    }
+    // (D)
+    let mut q6 = mk();
+    q6.exec("q_neg", "m", &[], &[], &[]);
+    let negimg = img(&q6);
+    q6.exec("q_neg", "m", &[], &[], &[]);
+    if img(&q6).0 != b0 {
+        return true;
+    }
+    let mut q7 = mk();
+    q7.exec("q_add", "pp", &[ab.0, ab.1], &[], &[]);
+    q7.exec("q_neg", "m", &[], &[], &[]);
+    let mut q8 = mk();
+    q8.exec("q_neg", "m", &[], &[], &[]);
+    q8.exec("q_sub", "pp", &[ab.0, ab.1], &[], &[]);
+    let (i7, i8) = (img(&q7), img(&q8));
+    if !i7.2 && !i8.2 && !negimg.2 && i7.0 != i8.0 {
+        return true;
+    }
+    // (E)
+    if z0 != b0.iter().all(|&w| w == 0) {
+        return true;
+    }
+    let mut q9 = QAny::new(ty.name);
+    q9.exec("q_from_posit", "m", &[ab.0], &[], &[]);
+    if ab.0 != gen::nar(n) {
+        if let Some(v) = q9.exec("q_to_posit", "m", &[], &[], &[]) {
+            if v[0].u() != ab.0 {
+                return true;
+            }
+        }
+    }
+    false
+}
+
+pub fn screen_quire(ctx: &mut Ctx, ty: &'static Ty, log2count: u32) {
+    let seed = ctx.seed.wrapping_mul(0x9FB2_1C65_1E98_DF25) ^ ((ty.n as u64) << 50);
+    set_current("q_meta", ty.name, "sweep", ty.n, &[log2count as u64]);
+    let (total, sel) = crate::screen::par_sweep(1u64 << log2count, 1, 0, 60, |i| {
+        let (base, ab, cd) = meta_history(ty, seed, i);
+        meta_differs(ty, &base, ab, cd)
+    });
+    ctx.sink.screened += total;
+    for i in sel {
+        let (base, ab, cd) = meta_history(ty, seed, i);
+        *ctx.sink.per_op.entry(format!("screen-selected:{}.q_meta", ty.name)).or_insert(0) += 1;
+        let st = |op: &'static str, x: (u64, u64)| Step { op, sp: "pp", x: vec![x.0, x.1], bs: vec![] };
+        let b: Vec<Step> = base.iter().map(|&t| st("q_add", t)).collect();
+        let with = |extra: Vec<Step>| -> Vec<Step> {
+            let mut v: Vec<Step> = base.iter().map(|&t| st("q_add", t)).collect();
+            v.extend(extra);
+            v
+        };
+        let negs = |x: (u64, u64)| (gen::neg(ty.n, x.0), x.1);
+        let hs: Vec<Vec<Step>> = vec![
+            with(vec![st("q_add", ab), st("q_sub", ab)]),
+            with(vec![st("q_add", ab), st("q_add", cd)]),
+            with(vec![st("q_add", cd), st("q_add", ab)]),
+            with(vec![st("q_add", (ab.1, ab.0))]),
+            with(vec![st("q_sub", ab)]),
+            with(vec![st("q_add", negs(ab))]),
+            with(vec![Step { op: "q_neg", sp: "m", x: vec![], bs: vec![] }, Step { op: "q_neg", sp: "m", x: vec![], bs: vec![] }]),
+            with(vec![st("q_add", ab), Step { op: "q_neg", sp: "m", x: vec![], bs: vec![] }]),
+            with(vec![Step { op: "q_neg", sp: "m", x: vec![], bs: vec![] }, st("q_sub", ab)]),
+            vec![Step { op: "q_from_posit", sp: "m", x: vec![ab.0], bs: vec![] }],
+            b,
+        ];
+        for h in hs {
+            ctx.sink.boundary();
+            ctx.sink.free = false;
+            run_history(ctx, ty, 0, &h, 1, false);
+            ctx.sink.free = true;
+        }
+    }
 }
